@@ -221,6 +221,23 @@ func (cl *cluster) timedFault(rs *ruleState) {
 		cl.brokerUp(f.Broker)
 		cl.noteFault("restart")
 	case "controller-move":
+		if f.Us > 0 {
+			// an election: no controller at all for a while, then the new one
+			cl.k.logf("fault controller-move %d->(none for %d us)->%d", cl.controller, f.Us, f.To)
+			cl.controller = -1
+			cl.bumpView()
+			cl.noteFault("controller-move")
+			cl.noteFault("controller-election-gap")
+			to := f.To
+			cl.k.after(time.Duration(f.Us)*time.Microsecond, func() {
+				if cl.controller == -1 {
+					cl.controller = to
+					cl.k.logf("view controller elected: b%d", to)
+					cl.bumpView()
+				}
+			})
+			break
+		}
 		cl.k.logf("fault controller-move %d->%d", cl.controller, f.To)
 		cl.controller = f.To
 		cl.bumpView()
